@@ -71,7 +71,10 @@ def build():
             for k in s:
                 if k not in order:
                     order.append(k)
-        sig_strs = [','.join(table[k] for k in s) for s in sigs]
+        # the annotation is free text: blanks around the commas and at the ends are allowed spellings (rotated per method)
+        sep = (',', ', ', ' , ', ',  ')[len(cells) % 4]
+        pad = ' ' if len(cells) % 5 == 4 else ''
+        sig_strs = [pad + sep.join(table[k] for k in s) + pad for s in sigs]
         cells.append(dict(id=cid, service=svc, rpc=rpc, py=names.py_method(rpc), req=req, dep=dep, kinds=order,
                           params=[param_name(table[k]) for k in order], paths=[table[k] for k in order]))
         return method(rpc, req, Q('Resp'), sigs=sig_strs)
